@@ -369,6 +369,8 @@ pub open spec fn step_update_minter(s: Raw, t: Raw, sender: Seq<char>, new_minte
     r is Ok ==> step_update_minter(old(deps.storage).view(), final(deps.storage).view(), info.sender@, new_minter)
 @ensures C13.update_minter_inv C01
     r is Ok ==> inv(final(deps.storage).view())
+@ensures C02.update_minter_nomsg
+    r is Ok ==> r->Ok_0.messages@.len() == 0
 @closure 1 C13.update_minter_validate
     (res: StdResult<Addr>)
     ensures res is Ok ==> res->Ok_0@ == new_minter@
